@@ -3,7 +3,7 @@ Executable model of `cocls::generator<T,Arg>` (src/cocls/generator.h) with the `
 (src/cocls/iterator.h), as the code is.
 
 * the *body* is a script (`Act`) run by `exec` until its next suspension: `co_yield v`, `co_yield nullptr`,
-  `co_await` of a ready / possibly pending awaitable, construction of a local with a destructor, `throw`, `co_return`;
+  `co_await` of a ready / possibly pending awaitable, `co_await pause()`, construction of a local with a destructor, `throw`, `co_return`;
 * the promise record has the fields of `generator::promise_type`: `_caller` (`caller`, plus the resume function currently
   installed in `_internal`: `ifn`), `_arg`, `_ret`, `_exp`, `_done`, `_block`, `_awaiting`; `bst = final` is `h.done()`;
 * consumer operations (`Op`): the synchronous access `bool(gen.next(a))` split at its only blocking point
@@ -22,6 +22,11 @@ inductive Act
   | yield (v : Nat)     -- co_yield v
   | yieldNull           -- co_yield nullptr   (reads the current argument, does not suspend)
   | awaitReady          -- co_await <ready awaitable>
+  | pause               -- co_await cocls::pause(): the body goes to the tail of its thread's coroutine queue and whatever is queued
+                        -- runs first. The body always runs under a queue (an access from ordinary code installs one for the
+                        -- activation: `resume_in_queue`, /repo fix 191263e; the pinned code ran the body without a queue and
+                        -- `pause` dereferenced the null `coro_queue::instance`), and in every access style of this model nothing
+                        -- else is queued on the body's thread: the body continues at once
   | await (k : Nat)     -- co_await <operation k>: suspends unless k already completed
   | guard               -- a local object with a destructor comes into scope
   | throw               -- an exception escapes the body
@@ -233,6 +238,7 @@ def exec : List Act → State → State
   | .yield v :: rest, s => yieldAt { s with script := rest } v
   | .yieldNull :: rest, s => exec rest (recvArg { s with script := rest })
   | .awaitReady :: rest, s => exec rest { s with script := rest }
+  | .pause :: rest, s => exec rest { s with script := rest }
   | .await k :: rest, s =>
       if k ∈ s.resolved then exec rest { s with script := rest }
       else { s with script := rest, bst := .await k }
@@ -525,5 +531,42 @@ def ending : List Act → Item
 
 /-- what the consumer must see, access by access, until the body has ended -/
 def expected (sc : List Act) : List Item := (yields sc).map .val ++ [ending sc]
+
+/-! ### The unrepaired synchronous access (pinned commit, before `/repo` commit 191263e)
+
+`next_sync()` (and `next_future()`, `next_awt::subscribe()`) resumed the body by a bare `h.resume()`: read by ordinary code the
+body ran on a thread without a coroutine queue, and `co_await pause()` — `pause::await_suspend` starts with
+`coro_queue::instance->_queue` — dereferenced a null pointer (`ub`). -/
+
+/-- the body as the pinned commit ran it for an access made by ordinary code (no queue installed) -/
+def execAsIs : List Act → State → State
+  | [], s => finish s false
+  | .yield v :: rest, s => yieldAt { s with script := rest } v
+  | .yieldNull :: rest, s => execAsIs rest (recvArg { s with script := rest })
+  | .awaitReady :: rest, s => execAsIs rest { s with script := rest }
+  | .pause :: rest, s => { s with script := rest, ub := true }
+  | .await k :: rest, s =>
+      if k ∈ s.resolved then execAsIs rest { s with script := rest }
+      else { s with script := rest, bst := .await k }
+  | .guard :: rest, s => execAsIs rest { s with script := rest, live := s.live ++ [s.made], made := s.made + 1 }
+  | .throw :: _, s => finish s true
+  | .ret :: _, s => finish s false
+
+def resumeBodyAsIs (s : State) : State :=
+  match s.bst with
+  | .init => execAsIs s.script { s with bst := .run }
+  | .yield => execAsIs s.script (recvArg { s with bst := .run })
+  | .await _ => execAsIs s.script { s with bst := .run }
+  | _ => { s with ub := true }
+
+/-- `bool(gen.next(a))` up to the return of `h.resume()`, as the pinned commit had it (before `/repo` commit 191263e "fix:
+synchronous and future access to a generator ran its body without a coroutine queue") -/
+def stepSyncBeginAsIs (s : State) (kind : SyncKind) (a : Nat) : State × Res :=
+  if !s.alive then (s, .gone)
+  else if inSync s then (s, .blocked)
+  else if s.caller != .none then (s, .busy)
+  else if (setArg s a).done then syncGo (setArg s a) kind
+  else if (setArg s a).bst == .final then syncGo (setArg s a) kind
+  else (resumeBodyAsIs { setArg s a with block := false, caller := .internal, ifn := .sync, cons := .inSync kind }, .started)
 
 end Cocls.Gen
